@@ -1,4 +1,88 @@
-/- Line protocol of C10: placeholder until the model of this property is built. -/
+import BertE.Gen.Reactor
+import BertE.Model.Comments
+import BertE.Drv.C07
+/- Line protocol of C10 (comment thread primitives). Texts are hex encoded (UTF-8 bytes, two digits each);
+   a thread is a list of `<author>:<hex>`; an optional integer is `N` or a decimal.
+     `find <N|u:author> <N|s:hex> <N|int> [comment]*`          -> `none` | `found <index from the oldest>` | `crash <why>`
+     `send <robot> <no_comment 0/1> <N|int> m:<hex> [comment]*`  -> `posted` | `muted` | `exists` | `crash <why>`
+     `pass <robot> <admins|-> <prAuthor> [comment]*`              -> `ok` | `command <k> <name>` | `error <Class>` | `crash <why>`
+   (`k`: the k-th comment from the newest, i.e. the k-th call of `handle_commands`). -/
 namespace BertE.Drv.C10
-def handle (_args : List String) : String := "bad-op"
+open BertE.Reactor BertE.Comments
+
+def optInt (s : String) : Option (Option Int) :=
+  if s == "N" then some none else (s.toInt?).map some
+
+def tagged (tag : String) (s : String) : Option (Option (List Char)) :=
+  if s == "N" then some none
+  else if s.startsWith tag then (BertE.Drv.C07.unhex (s.drop tag.length).toString.toList).map some
+  else none
+
+/-- index (oldest first) of the comment that `findLoop` returned: the loop runs over the reversed thread,
+    so the answer is recomputed by position -/
+def findIndex (username : Option String) (sw : Option (List Char)) (latestOnly : Bool) : Nat → List Comment → Option Nat
+  | _, [] => none
+  | k, c :: rest =>
+    if some c.author != username then findIndex username sw latestOnly (k + 1) rest
+    else
+      match sw with
+      | some p =>
+        if p.isPrefixOf c.text then some k
+        else if latestOnly then none
+        else findIndex username sw latestOnly (k + 1) rest
+      | none => some k
+
+def handleFind (u sw mh : String) (cs : List String) : String :=
+  match tagged "u:" u, tagged "s:" sw, optInt mh, cs.mapM BertE.Drv.C07.parseComment with
+  | some user, some sw, some mh, some comments =>
+    let username := user.map String.ofList
+    match findComment comments username sw mh with
+    | .error w => s!"crash {w}"
+    | .ok none => "none"
+    | .ok (some c) =>
+      -- position of the returned comment: the same loop, counting
+      let window := match mh with
+        | none => comments.reverse
+        | some n => if n == -1 then comments.reverse else comments.reverse.take n.toNat
+      match findIndex username (swActive sw) (mh == some (-1)) 0 window with
+      | some k => if comments[comments.length - 1 - k]? == some c then s!"found {comments.length - 1 - k}" else "found ?"
+      | none => "found ?"
+  | _, _, _, _ => "bad-op"
+
+def showSent : Sent → String
+  | .posted _ => "posted"
+  | .muted => "muted"
+  | .exists => "exists"
+  | .crash w => s!"crash {w}"
+
+def handleSend (robot nc nr msg : String) (cs : List String) : String :=
+  match optInt nr, tagged "m:" msg, cs.mapM BertE.Drv.C07.parseComment with
+  | some nr, some (some m), some comments => showSent (sendComment (nc == "1") robot comments m nr)
+  | _, _, _ => "bad-op"
+
+def handlePass (robot adm pra : String) (cs : List String) : String :=
+  match cs.mapM BertE.Drv.C07.parseComment with
+  | some comments =>
+    let reg := BertE.Gen.Reactor.registry
+    let env : Env := ⟨BertE.Drv.C07.csv adm, pra, robot, []⟩
+    match handleComments reg env comments with
+    | .ok _ => "ok"
+    | .command _ name _ =>
+      match executedAt (commandOf env.pfx) reg env 1 comments.reverse with
+      | some k => s!"command {k} {name}"
+      | none => s!"command ? {name}"
+    | .error (.unknownCommand _ _) => "error UnknownCommand"
+    | .error (.notEnoughCredentials _ _ _) => "error NotEnoughCredentials"
+    | .error (.notAuthor _ _) => "error NotAuthor"
+    | .error .incorrectSyntax => "error IncorrectCommandSyntax"
+    | .crash w => s!"crash {w}"
+  | none => "bad-op"
+
+def handle (args : List String) : String :=
+  match args with
+  | "find" :: u :: sw :: mh :: cs => handleFind u sw mh cs
+  | "send" :: robot :: nc :: nr :: msg :: cs => handleSend robot nc nr msg cs
+  | "pass" :: robot :: adm :: pra :: cs => handlePass robot adm pra cs
+  | _ => "bad-op"
+
 end BertE.Drv.C10
